@@ -34,6 +34,7 @@ func genC14(t *rapid.T) CaseC14 {
 			}
 		}
 	}
+	o.SeqNum = rapid.IntRange(0, 2).Draw(t, "seqnum") == 0 // wraps simple elements as {#text,_seq}: the structure must not depend on the leaf's cast type
 	g := XGen{Opts: o, MixedText: true, Namespaces: rapid.Bool().Draw(t, "ns"), TextGen: genCastText}
 	return CaseC14{Opts: o, Doc: g.Elem(t, rapid.IntRange(1, 3).Draw(t, "depth"))}
 }
@@ -100,6 +101,9 @@ func castWalk(u, c interface{}, key, parentKey string, hasAttrs bool, o Opts, se
 		if seq && reflect.DeepEqual(u, c) { // #seq numbers
 			return nil
 		}
+		if !seq && o.SeqNum && key == "_seq" && reflect.DeepEqual(u, c) { // IncludeTagSeqNum numbers
+			return nil
+		}
 		return failf("uncast-leaf-not-string", "%s: decoding without the cast flag gave %#v", path, u)
 	}
 	return nil
@@ -162,6 +166,7 @@ func checkC14(c CaseC14, info *Info) *Failure {
 	info.ClassIf(st.kept > 0, "a leaf stayed a string")
 	info.ClassIf(nonDefault, "non-default cast switch")
 	info.ClassIf(len(c.Opts.SkipTags) > 0, "skip-tag function set")
+	info.ClassIf(c.Opts.SeqNum, "IncludeTagSeqNum on")
 	info.NonTrivial(st.changed > 0 && st.kept > 0 && nonDefault)
 	return nil
 }
